@@ -24,6 +24,19 @@ deriving Repr, DecidableEq
 def Err.toString : Err → String
   | .shape => "shape" | .index => "index" | .key => "key" | .notimpl => "notimpl" | .other => "other"
 
+/-! ## 0. constants copied from the sources (pinned by `Scico.Generated.FlaxTables`) -/
+
+/-- `ocp.CheckpointManagerOptions(max_to_keep=3, create=True)` in `checkpoint_save` -/
+abbrev codeMaxToKeep : Nat := 3
+/-- `steps_per_checkpoint = steps_per_epoch * 10`, `log_every_steps = steps_per_epoch * 20` (defaults of `configure_steps`) -/
+abbrev codeSpcFactor : Nat := 10
+abbrev codeLogFactor : Nat := 20
+/-- `axsqueeze` of `FlaxMap.__call__` for rank 2 / rank 3 input -/
+abbrev codeSqueeze2 : List Nat := [0, 3]
+abbrev codeSqueeze3 : List Nat := [0]
+/-- `IterateData(key=None)` uses `jax.random.PRNGKey(0)` -/
+abbrev codeIterDefaultSeed : Nat := 0
+
 /-! ## 1. `FlaxMap.__call__` : axis insertion and removal -/
 
 /-- an N-d array: shape and row-major data.  Reshape/squeeze do not touch the data. -/
@@ -46,8 +59,8 @@ def squeezeAll (s : List Nat) : List Nat := s.filter (· != 1)
     the network and `axsqueeze` -/
 def flaxPre {α : Type} (x : Arr α) : Arr α × Option (List Nat) :=
   let xndim := x.shape.length
-  if xndim = 2 then (⟨[1] ++ x.shape ++ [1], x.data⟩, some [0, 3])
-  else if xndim = 3 then (⟨[1] ++ x.shape, x.data⟩, some [0])
+  if xndim = 2 then (⟨[1] ++ x.shape ++ [1], x.data⟩, some codeSqueeze2)
+  else if xndim = 3 then (⟨[1] ++ x.shape, x.data⟩, some codeSqueeze3)
   else (x, none)
 
 /-- second half: `if y.ndim != xndim: return y.squeeze(axis=axsqueeze)`, else `y` -/
@@ -280,9 +293,9 @@ def TrainCfg.spe (c : TrainCfg) : Nat := c.lenTrain / c.batchSize
 /-- `self.num_steps = int(self.steps_per_epoch * num_epochs)` -/
 def TrainCfg.numSteps (c : TrainCfg) : Nat := c.spe * c.numEpochs
 /-- `self.steps_per_checkpoint` (default `steps_per_epoch * 10`) -/
-def TrainCfg.spc (c : TrainCfg) : Nat := match c.spcOpt with | some v => v | none => c.spe * 10
+def TrainCfg.spc (c : TrainCfg) : Nat := match c.spcOpt with | some v => v | none => c.spe * codeSpcFactor
 /-- `self.log_every_steps` (default `steps_per_epoch * 20`) -/
-def TrainCfg.logEvery (c : TrainCfg) : Nat := match c.logOpt with | some v => v | none => c.spe * 20
+def TrainCfg.logEvery (c : TrainCfg) : Nat := match c.logOpt with | some v => v | none => c.spe * codeLogFactor
 /-- `self.steps_per_eval` (default `len_test // batch_size`) -/
 def TrainCfg.stepsPerEval (c : TrainCfg) : Nat := match c.evalOpt with | some v => v | none => c.lenTest / c.batchSize
 
@@ -362,5 +375,26 @@ def sessionRows {κ : Type} (K : KeyOps κ) (key : κ) (n b : Nat) (evs : List S
 def specChain : Nat → List Nat → List (List Nat)
   | _, [] => []
   | s, n :: ns => List.range' s (n - s) :: specChain (max s n) ns
+
+/-! ## 7. data copied from the scico sources — pinned to the source by `Scico.Generated.FlaxTables` (regenerated on every run) -/
+
+/-- the functions this file follows line by line, as normalised source (`ast.unparse`, docstrings and comments dropped):
+    `flaxPre/flaxPost` ↔ `FlaxMap.__call__`; `loadVars/saveVars`; `Iter.init/reset/next`; `save/restore`;
+    `TrainCfg.*`, `sessionOffset`, `sessionLoop`, `trainSession` ↔ the four `BasicFlaxTrainer` methods. -/
+def codeSources : List (String × List String) := [
+  ("FlaxMap.__call__", ["if isinstance(x, BlockArray):", "    raise NotImplementedError", "xndim = x.ndim", "axsqueeze: Optional[Shape] = None", "if xndim == 2:", "    x = x.reshape((1,) + x.shape + (1,))", "    axsqueeze = (0, 3)", "elif xndim == 3:", "    x = x.reshape((1,) + x.shape)", "    axsqueeze = (0,)", "y = self.model.apply(self.variables, x, train=False, mutable=False)", "if y.ndim != xndim:", "    return y.squeeze(axis=axsqueeze)", "return y"]),
+  ("load_variables", ["with open(filename, 'rb') as data_file:", "    bytes_input = data_file.read()", "variables = serialization.msgpack_restore(bytes_input)", "var_in = {'params': variables['params'], 'batch_stats': variables['batch_stats']}", "return var_in"]),
+  ("save_variables", ["bytes_output = serialization.msgpack_serialize(variables)", "with open(filename, 'wb') as data_file:", "    data_file.write(bytes_output)"]),
+  ("IterateData.__init__", ["self.dt = dt", "self.batch_size = batch_size", "self.train = train", "self.n = dt['image'].shape[0]", "self.key = key", "if key is None:", "    self.key = jax.random.PRNGKey(0)", "self.steps_per_epoch = self.n // batch_size", "self.reset()"]),
+  ("IterateData.reset", ["if self.train:", "    self.key, subkey = jax.random.split(self.key)", "    self.perms = jax.random.permutation(subkey, self.n)", "else:", "    self.perms = jnp.arange(self.n)", "self.perms = self.perms[:self.steps_per_epoch * self.batch_size]", "self.perms = self.perms.reshape((self.steps_per_epoch, self.batch_size))", "self.ns = 0"]),
+  ("IterateData.__next__", ["if self.ns >= self.steps_per_epoch:", "    if self.train:", "        self.reset()", "    else:", "        self.ns = 0", "batch = {k: v[self.perms[self.ns], ...] for k, v in self.dt.items()}", "self.ns += 1", "return batch"]),
+  ("create_input_iter", ["ds = IterateData(dataset, batch_size, train, key)", "it = map(prepare_data, ds)", "it = jax_utils.prefetch_to_device(it, size_device_prefetch)", "return it"]),
+  ("checkpoint_restore", ["workdir_ = workdir", "if isinstance(workdir_, str):", "    workdir_ = Path(workdir_)", "if workdir_.exists():", "    options = ocp.CheckpointManagerOptions()", "    mngr = ocp.CheckpointManager(workdir_, item_names=('state', 'config'), options=options)", "    step = mngr.latest_step()", "    if step is not None:", "        restored = mngr.restore(step, args=ocp.args.Composite(state=ocp.args.StandardRestore(state)))", "        mngr.wait_until_finished()", "        mngr.close()", "        state = restored.state", "    else:", "        mngr.close()", "        if not ok_no_ckpt:", "            raise FileNotFoundError('Could not read from checkpoint: ' + str(workdir))", "elif not ok_no_ckpt:", "    raise FileNotFoundError('Could not read from checkpoint: ' + str(workdir))", "return state"]),
+  ("checkpoint_save", ["if jax.process_index() == 0:", "    options = ocp.CheckpointManagerOptions(max_to_keep=3, create=True)", "    mngr = ocp.CheckpointManager(workdir, item_names=('state', 'config'), options=options)", "    step = int(state.step)", "    config_ = config.copy()", "    if 'post_lst' in config_:", "        config_.pop('post_lst', None)", "    mngr.save(step, args=ocp.args.Composite(state=ocp.args.StandardSave(state), config=ocp.args.JsonSave(config_)))", "    mngr.wait_until_finished()", "    mngr.close()"]),
+  ("BasicFlaxTrainer.configure_steps", ["if 'batch_size' not in config:", "    batch_size = 2 * jax.device_count()", "else:", "    batch_size = config['batch_size']", "if 'num_epochs' not in config:", "    num_epochs = 10", "else:", "    num_epochs = config['num_epochs']", "if batch_size % jax.device_count() > 0:", "    raise ValueError('Batch size must be divisible by the number of devices')", "self.local_batch_size: int = batch_size // jax.process_count()", "self.steps_per_epoch: int = len_train // batch_size", "config['steps_per_epoch'] = self.steps_per_epoch", "self.num_steps: int = int(self.steps_per_epoch * num_epochs)", "num_validation_examples: int = len_test", "if 'steps_per_eval' not in config:", "    self.steps_per_eval: int = num_validation_examples // batch_size", "else:", "    self.steps_per_eval = config['steps_per_eval']", "if 'steps_per_checkpoint' not in config:", "    self.steps_per_checkpoint: int = self.steps_per_epoch * 10", "else:", "    self.steps_per_checkpoint = config['steps_per_checkpoint']", "if 'log_every_steps' not in config:", "    self.log_every_steps: int = self.steps_per_epoch * 20", "else:", "    self.log_every_steps = config['log_every_steps']"]),
+  ("BasicFlaxTrainer.initialize_training_state", ["state = self.create_train_state(key, config, model, self.ishape, self.lr_schedule, variables0)", "if self.checkpointing and variables0 is None:", "    ok_no_ckpt = True", "    state = checkpoint_restore(state, self.workdir, ok_no_ckpt)", "self.log('Network Structure:')", "self.log(get_parameter_overview(state.params) + '\\n')", "if hasattr(state, 'batch_stats'):", "    self.log('Batch Normalization:')", "    self.log(get_parameter_overview(state.batch_stats) + '\\n')", "self.state = state"]),
+  ("BasicFlaxTrainer.train", ["state = self.state", "step_offset = int(state.step)", "state = jax_utils.replicate(state)", "t0 = time.time()", "self.log('Initial compilation, which might take some time ...')", "train_metrics: List[Any] = []", "for step, batch in zip(range(step_offset, self.num_steps), self.train_dt_iter):", "    state, metrics = self.p_train_step(state, batch)", "    train_metrics.append(metrics)", "    if step == step_offset:", "        self.log('Initial compilation completed.\\n')", "    if (step + 1) % self.log_every_steps == 0:", "        state = sync_batch_stats(state)", "        self.update_metrics(state, step, train_metrics, t0)", "        train_metrics = []", "    if (step + 1) % self.steps_per_checkpoint == 0 or step + 1 == self.num_steps:", "        state = sync_batch_stats(state)", "        self.checkpoint(state)", "jax.random.normal(jax.random.PRNGKey(0), ()).block_until_ready()", "if self.logflag:", "    assert self.itstat_object is not None", "    self.itstat_object.end()", "state = sync_batch_stats(state)", "self.checkpoint(state)", "state = jax_utils.unreplicate(state)", "if self.return_state:", "    return (state, self.itstat_object)", "dvar: ModelVarDict = {'params': state.params, 'batch_stats': state.batch_stats}", "self.train_time = time.time() - t0", "return (dvar, self.itstat_object)"]),
+  ("BasicFlaxTrainer.checkpoint", ["if self.checkpointing:", "    checkpoint_save(jax_utils.unreplicate(state), self.config, self.workdir)"])
+]
 
 end Scico.Flax
